@@ -37,21 +37,30 @@ class Driver:
         return json.loads(line)
 
     def ask_many(self, reqs: list[dict]) -> list[dict]:
-        """Batch: write all, then read all (avoids a round trip per request)."""
+        """Batch: write a chunk, then read its replies.  A chunk holds at most 32 KB of request
+        text (below the pipe buffer size), so writing never blocks while the driver is blocked on
+        a full reply pipe, whatever the size of the replies."""
         out = []
-        CH = 200
-        for i in range(0, len(reqs), CH):
-            chunk = reqs[i : i + CH]
-            self.p.stdin.write(
-                "".join(json.dumps(r, ensure_ascii=False, separators=(",", ":")) + "\n" for r in chunk)
-            )
+        lines = [json.dumps(r, ensure_ascii=False, separators=(",", ":")) + "\n" for r in reqs]
+        i = 0
+        while i < len(lines):
+            size = 0
+            j = i
+            while j < len(lines) and (j == i or size + len(lines[j].encode()) <= 32000) and j - i < 200:
+                size += len(lines[j].encode())
+                j += 1
+            if j == i + 1 and size > 32000:
+                # a single large request: the driver reads it completely before it replies
+                pass
+            self.p.stdin.write("".join(lines[i:j]))
             self.p.stdin.flush()
-            for r in chunk:
+            for k in range(i, j):
                 line = self.p.stdout.readline()
                 if not line:
-                    raise DriverError(f"driver died on {r!r}")
+                    raise DriverError(f"driver died on {reqs[k]!r}")
                 out.append(json.loads(line))
-            self.n += len(chunk)
+            self.n += j - i
+            i = j
         return out
 
     def close(self):
